@@ -16,3 +16,5 @@ for id in $ids; do
   echo "$id ($prop): exit=$rc violations=$nviol $(echo "$out" | grep -A1 '^VIOLATION' | grep 'kind=' | head -2 | tr -s ' ' | cut -c1-150 | tr '\n' '|')"
 done
 git -C $REPO status --porcelain --untracked-files=no | head -3
+# the evidence files were rewritten by runs against patched trees: put the committed ones back
+git checkout -- evidence/ 2>/dev/null
